@@ -167,6 +167,30 @@ def skipper_tables(rep, rule, prog, cg):
             rep.bad(rule, key, badp[0], 'the unchecked skipper pops a pending container without having counted it down to zero (%d of %d pop sites): after the first struct element of a list / set / map the rest of the container is parsed as fields of the enclosing struct' % (len(badp), len(pops)))
         else:
             rep.ok(rule, key, '%d pop site(s), each under `remaining == 0` of the top entry' % len(pops), pops[0].loc())
+    # (f) nothing is pushed for an empty container: an entry with zero remaining elements would be counted down below zero
+    pushes = [cs for cs in b.calls() if cs.name == 'push' and ('SmallVec' in cs.callee or 'Vec' in cs.callee)]
+    key = '%s|unchecked skipper push of empty container' % rule
+    if not pushes:
+        rep.anchor_missing(rule, 'push onto the pending-container stack in the unchecked skipper')
+    else:
+        badp = []
+        for cs in pushes:
+            ok = False
+            # the struct entry is pushed with the constant count 1
+            arg = cs.arg(1) if len(cs.t['args']) > 1 else ('unknown',)
+            if any(x == ('const', 1) for x in mirlib.subexprs(arg)) and not any(x and x[0] == 'field' and x[2] == 'size' for x in mirlib.subexprs(arg)):
+                ok = True
+            for op, a, c, sbb, tb in b.comparisons_at(cs.bb):
+                if c is None:
+                    continue
+                if ((op in ('Ne', 'Gt') and c == ('const', 0)) or (op == 'Ge' and c[0] == 'const' and c[1] >= 1)) and any(x and x[0] == 'field' and x[2] == 'size' for x in mirlib.subexprs(a)):
+                    ok = True
+            if not ok:
+                badp.append(cs.loc())
+        if badp:
+            rep.bad(rule, key, badp[0], 'the unchecked skipper pushes a pending container without having tested that its element count is not zero (%d of %d push sites): the next count-down of that entry underflows (panic under overflow checks, a 4-billion-element skip otherwise)' % (len(badp), len(pushes)))
+        else:
+            rep.ok(rule, key, '%d push site(s): a struct (count 1) or a container under `size != 0`' % len(pushes), pushes[0].loc())
     # (c) map fast path needs both sides fixed
     key = '%s|unchecked skipper map fast path' % rule
     found = False
@@ -336,9 +360,11 @@ def reader_accounting(rep, rule, prog, cg):
         b = see_through(b)
         advs = [cs for cs in b.calls() if cs.name == 'advance' and 'TBinaryUnsafeInputProtocol' in cs.callee and codec.is_self(b, cs.arg(0))]
         for cs in b.calls():
-            if re.search(r'bytes::Bytes::split_to$', cs.callee):
+            # anything that consumes from the transport itself (not through the protocol's own advance(), which keeps the
+            # window in step): split_to, Buf::advance / copy_to_bytes on self.<transport>
+            if re.search(r'bytes::Bytes::split_to$', cs.callee) or (re.search(r'bytes::Buf>?::(advance|copy_to_bytes|copy_to_slice)$', cs.callee) and cs.t['args'] and _root_field(b, cs.arg(0)) not in (None, R['r_cursor'], R['r_window'])):
                 n += 1
-                key = '%s|%s|split_to' % (rule, name)
+                key = '%s|%s|%s' % (rule, name, cs.name if cs.name != 'split_to' else 'split_to')
                 pre = [a for a in advs if b.dominates(a.bb, cs.bb) and a.bb != cs.bb]
                 # get_bytes(Some(ptr)) path legitimately skips the flush (index reset to 0 instead): accept a dominating `self.index = 0`
                 reset = False
